@@ -68,7 +68,7 @@ theorem stabilise_phases (env : Env) (fuel : Nat) (s s' : State)
   | error e => cases hrun
   | ok u3 =>
   simp only [] at hrun
-  have d3 := (PresD.drainHeap env fuel).h _ _ _ h3
+  have d3 : Dis s2 s3 := (PresD.drainHeap env fuel).h _ _ _ h3
   have d4 := (PresD.stabiliseEnd env fuel).h _ _ _ hrun
   have hend := stabiliseEnd_status env fuel _ _ _ hrun
   have hdis1 : s1.disallowedObservers = s.disallowedObservers := m1.dis
